@@ -29,3 +29,8 @@ def run(ctx):
     CH.queue_api(ctx, "C08.R5")
     W.not_clone(ctx, "C08.R8")
     ST.writer_delegation(ctx, "C08.R9")
+    # "... and the body then ends cleanly": the end (and every flushed chunk) is announced to a parked consumer
+    R_ = CH.roles(ctx)
+    fo_ = [("flush", CH.flush_rows(ctx, False)[1]), ("drop", CH.flush_rows(ctx, True)[1]),
+           ("abort", ctx.px(R_["abort"], inline=lambda c, d: True, key="all"))]
+    CH.wake_discipline(ctx, "C08.R7.wake", fo_)
